@@ -237,7 +237,7 @@ class ChunkModel:
                 fields = set()
                 for sh in shapes:
                     for fld, val in sh[2]:
-                        if fld.startswith("current_header.") and re.search(r"(^|[^\w])#1($|[^\w])|^elem$", val) and "timestamp.value" not in fld and fld != "current_header.timestamp":
+                        if fld.startswith("current_header.") and re.search(r"(^|[^\w])#1($|[^\w])|^elem(\[\d+\])?$", val) and "timestamp.value" not in fld and fld != "current_header.timestamp":
                             fields.add(fld.split(".", 1)[1])
                 out.append((name, ks, sorted(fields)))
             else:
